@@ -1,1 +1,122 @@
-/-! # C14 — property theorems (stub: not built yet) -/
+import PymocaVerif.Lemmas.SimplifyPipeline
+/-!
+# C14 — simplification preserves the DAE's solutions
+
+Property theorems about the model `PymocaVerif.Model.Simplify` of `Model.simplify`.
+`Sat I σ m`: the environment `σ` (a value for every symbol) satisfies the equations of `m`, gives
+every parameter and constant its value (this includes the constant assignments simplification
+records) and satisfies every alias simplification records.  The theorems hold over every field
+`K`, every interpretation `I` of the operations the passes never look into, and every `Engine`
+(what is observed of CasADi: rewriting on `substitute`, answers of `is_zero`) that preserves values.
+-/
+set_option linter.unusedSectionVars false
+namespace PymocaVerif.Simplify
+open PymocaVerif.AliasRel Lean.Grind
+
+variable {K : Type} [Field K] [DecidableEq K]
+
+/-! ### objects for the non-vacuity examples -/
+
+def exI : Interp Rat := ⟨fun x => if x < 0 then -x else x, fun x => x, fun _ x => x, fun _ _ _ => 0⟩
+def exE : Engine Rat := { norm := id, gzero := fun _ _ _ _ => false }
+/-- `x - 3 = 0`, `y - 2*x = 0`, `z + y = 0`, `p*(w - z) = 0` with `parameter p = 2` -/
+def exM : Model Rat :=
+  { algs := [{ name := "x" }, { name := "y" }, { name := "z" }, { name := "w" }],
+    params := [{ name := "p", value := some (.const 2) }],
+    eqs := [.bin .sub (.sym "x") (.const 3), .bin .sub (.sym "y") (.bin .mul (.const 2) (.sym "x")),
+            .bin .add (.sym "z") (.sym "y"), .bin .mul (.sym "p") (.bin .sub (.sym "w") (.sym "z"))] }
+def exσ : Env Rat := fun n =>
+  if n = "x" then 3 else if n = "y" then 6 else if n = "z" then -6 else if n = "w" then -6 else if n = "p" then 2 else 0
+def exO : Opts := { eliminateConstantAssignments := true, replaceParameterValues := true,
+                    factorAndSimplify := true, detectAliases := true }
+
+theorem exI_ok : InterpOk exI := by
+  constructor
+  · intro x; simp only [exI]; split <;> grind
+  · intro x; simp [exI]
+
+theorem exE_ok : EngineOk exI exE := ⟨fun _ _ => rfl, fun _ _ h => h, fun _ _ _ => rfl⟩
+
+theorem exM_sat : Sat exI exσ exM := by
+  refine ⟨?_, ?_, ?_, ?_⟩
+  · intro e he
+    simp [exM] at he
+    rcases he with rfl | rfl | rfl | rfl <;> simp [Ex.eval, exσ] <;> grind
+  · intro v hv t ht
+    simp [exM] at hv; subst hv; simp at ht; subst ht; simp [Ex.eval, exσ]
+  · intro v hv; simp [exM] at hv
+  · exact ⟨fun x A h => by simp [exM, AR.empty] at h, fun x c h => by simp [exM, AR.empty] at h⟩
+
+/-! ### the key lemma -/
+
+/-- Substitution lemma: evaluating `e[y₁ ↦ t₁, …]` in `σ` is evaluating `e` in `σ` with every `yᵢ`
+    set to the value of `tᵢ` in `σ`.  It is what makes every substituting pass sound. -/
+theorem subst_eval (I : Interp K) (σ : Env K) (l : List (String × Ex K)) (e : Ex K) :
+    (e.subst l).eval I σ = e.eval I (upd I σ l) := eval_subst I σ l e
+
+example : ((Ex.bin .add (.sym "x") (.sym "y") : Ex Rat).subst [("x", .const 2)]).eval exI exσ = 8 := by
+  simp [Ex.subst, Ex.eval, List.lookup, exσ]; grind
+
+/-! ### every pass is sound, and what it records is true -/
+
+/-- `pass_sound`: whatever the options, a pass that returns (does not raise) maps a model with
+    solution `σ` to a model with solution `σ`: the remaining equations hold, the remaining and the
+    newly recorded constants have their values, the recorded aliases hold with their signs.  The
+    preconditions are the ones the property attaches to the options (`PassPre`). -/
+theorem pass_sound {I : Interp K} (hI : InterpOk I) {E : Engine K} (hE : EngineOk I E) {σ : Env K} (o : Opts)
+    (p : Pass) {m m' : Model K} (hpre : PassPre I σ E p m) (h : Pass.run E o p m = .ok m')
+    (hs : Sat I σ m) : Sat I σ m' :=
+  pass_run_sound hI hE o p hpre h hs
+
+example : ∃ m', Pass.run exE exO .cassign exM = .ok m' ∧ PassPre exI exσ exE .cassign exM ∧ Sat exI exσ exM ∧
+    names m'.consts = ["x"] :=
+  ⟨_, rfl, trivial, exM_sat, by decide⟩
+
+/-- `pipeline_sound`: for every option set, every number of iterations of the loop and every model,
+    `simplify` either raises (`.error`, the exceptions of the real code) or returns a model of which
+    every solution of the original model is a solution — the projection of the original solution set
+    is contained in the simplified one.  By induction over the iterations and the pass list. -/
+theorem pipeline_sound {I : Interp K} (hI : InterpOk I) {E : Nat → Pass → Engine K}
+    (hE : ∀ i p, EngineOk I (E i p)) {σ : Env K} (o : Opts) {m m' : Model K}
+    (hpre : LoopPre I σ E o 50 0 m) (h : simplify E o m = .ok m') (hs : Sat I σ m) : Sat I σ m' :=
+  simplifyLoop_sound hI hE o 50 0 0 m m' hpre h hs
+
+/-- `recorded_holds`: every constant value and every alias (sign included) recorded by `simplify`
+    holds in every solution of the original model. -/
+theorem recorded_holds {I : Interp K} (hI : InterpOk I) {E : Nat → Pass → Engine K}
+    (hE : ∀ i p, EngineOk I (E i p)) {σ : Env K} (o : Opts) {m m' : Model K}
+    (hpre : LoopPre I σ E o 50 0 m) (h : simplify E o m = .ok m') (hs : Sat I σ m) :
+    (∀ v ∈ m'.consts, ∀ t, v.value = some t → σ v.name = t.eval I σ) ∧
+    (∀ c a, a ∈ m'.ar.aliases (false, c) → sval σ a = σ c) := by
+  have h' := pipeline_sound hI hE o hpre h hs
+  refine ⟨h'.consts, ?_⟩
+  intro c a ha
+  simpa [sval] using aliases_sval h'.alias ha
+
+/-! ### passes that neither lose nor invent solutions (no precondition beyond the property's) -/
+
+/-- `eliminate_constant_assignments` is exact: the kept equations together with the recorded
+    constant values say exactly what the equations said (patterns `x`, `x - c`, `c - x`, `x + c`, `c + x`). -/
+theorem constant_assignments_exact {I : Interp K} {σ : Env K} (m : Model K) :
+    Sat I σ (eliminateConstantAssignments m) ↔ Sat I σ m := cassign_sat m
+
+example : names (eliminateConstantAssignments exM).consts = ["x"] ∧ (eliminateConstantAssignments exM).eqs.length = 3 := by
+  decide
+
+/-- `factor_and_simplify_equations` is exact under the property's precondition (the dropped constant
+    factors and divisors are non-zero) and the assumption that `fabs`, `sqrt` vanish only at zero. -/
+theorem factor_exact {I : Interp K} (hI : InterpOk I) {σ : Env K} {m : Model K}
+    (hpre : ∀ e ∈ m.eqs, FactorPre e) : Sat I σ (factorAndSimplify m) ↔ Sat I σ m := factor_sound hI hpre
+
+example : ∀ e ∈ exM.eqs, FactorPre e := by
+  intro e he
+  simp [exM] at he
+  rcases he with rfl | rfl | rfl | rfl <;> simp [FactorPre]
+
+/-- `resolve_parameter_values` only rewrites values by values: exact. -/
+theorem resolve_exact {I : Interp K} {E : Engine K} (hE : EngineOk I E) {σ : Env K} (m : Model K) :
+    Sat I σ (resolveParameterValues E m) ↔ Sat I σ m := resolve_sat hE m
+
+example : EngineOk exI exE ∧ Sat exI exσ exM := ⟨exE_ok, exM_sat⟩
+
+end PymocaVerif.Simplify
